@@ -95,6 +95,26 @@ def handle (line : String) : String :=
   let r : Option String := do
     let (op, c) ← c.str?
     match op with
+    | "latwf" =>
+      let (np, c) ← c.nat?
+      let (ns, c) ← c.nat?
+      let (N, c) ← c.nat?
+      let (Nd, c) ← c.int?
+      let (s2pp, c) ← c.nats? ns
+      let s2pp ← allFin? np s2pp
+      let (base, c) ← c.nats? np
+      let base ← allFin? ns base
+      let (kq, c) ← c.ints? (3 * N)
+      let (R, c) ← c.ints? (3 * ns)
+      if !c.atEnd then none
+      if h : s2pp.size = ns ∧ base.size = np then
+        let L : Lat np ns N := { s2pp := fun k => s2pp[k.1]'(by omega)
+                                 base := fun j => base[j.1]'(by omega)
+                                 kq := fun q => (kq.getD (3 * q.1) 0, kq.getD (3 * q.1 + 1) 0, kq.getD (3 * q.1 + 2) 0)
+                                 R := fun k => (R.getD (3 * k.1) 0, R.getD (3 * k.1 + 1) 0, R.getD (3 * k.1 + 2) 0)
+                                 Nd := Nd }
+        pure (toString L.wf)
+      else none
     | "nacvec" =>
       let (qc, c) ← c.rats? 3
       let (hd, c) ← c.nat?
